@@ -755,18 +755,7 @@ func (sf *SexpFunction) IsLazyCallArg(i int) bool {
 }
 
 func (sf *SexpFunction) SetClosing(clos *Closing) {
-	ps4 := NewPrintStateWithIndent(4)
-	pre, err := sf.ShowClosing(clos.env, ps4, "prev")
-	_ = pre
-	panicOn(err)
-	newnew, err := sf.ShowClosing(clos.env, ps4, "newnew")
-	_ = newnew
-	panicOn(err)
-	//P("99999 for sfun = %p, in sfun.SetClosing(), prev value is %p = '%s'\n",
-	//	sf, sf.closingOverScopes, pre)
-	//P("88888 in sfun.SetClosing(), new  value is %p = '%s'\n", clos, newnew)
 	sf.closingOverScopes = clos
-	//P("in SetClosing() for '%s'/%p: my stack is: '%s'", sf.name, sf, clos.Stack.SexpString(nil))
 }
 
 func (sf *SexpFunction) ShowClosing(env *Zlisp, ps *PrintState, label string) (string, error) {
